@@ -1,105 +1,52 @@
 (* C04 model: the read-name codec of singlecellmultiomics (demultiplexer side: TaggedRecord header parsers,
    asFastq; tagger side: fromTaggedBamRecord, asIlluminaHeader, tagPysamRead, QueryNameFlagger.digest).
    Strings are lists of character codes.  Python exceptions are explicit [Raise] results.
-   Constants and tables (clamp bounds, letter table, header limit, separators, fqSafe class, tag table,
-   name format, molecule-identifier recipe, whitespace set) come from Gen/GenCodec.v which is regenerated
-   from the tree under check.  Definitions only. *)
+   This file INSTANTIATES the table interpreters of Model/C04x.v with the tables of Gen/GenCodec.v, which are
+   regenerated from the tree under check on every run: clamp bounds, letter table, header limit, separators,
+   fqSafe class, tag table, whitespace set, AND the control-flow tables: the header forms of _parse_illumina_header
+   (separators, number of pieces, which piece goes to which tag), the 3-DEC and scmo parsers, the decoder flags of
+   fromTaggedBamRecord (strip, maxsplit, fqSafe on store), the name format, the molecule-identifier recipe,
+   the ah / MI / QM / BK tags, the sample-name chain, the read-group recipe and the guards of digest.
+   Definitions only. *)
 From Coq Require Import ZArith List Bool String Ascii.
 Import ListNotations.
 From SCMO Require Import Lib.Val Gen.GenCodec.
+From SCMO Require Export Model.C04x.
 Open Scope Z_scope.
 
-Definition str := list Z.
-Definition s2z (s : string) : str := map (fun a => Z.of_N (N_of_ascii a)) (list_ascii_of_string s).
+(* ---------------------------------------------------------------- the generated tables as model values *)
+Definition C0 : codec := {|
+  k_isep := enc_item_sep; k_kvsep := enc_kv_sep; k_disep := dec_item_sep; k_dkvsep := dec_kv_sep;
+  k_limit := header_limit; k_tags := tag_table; k_keep := fqsafe_ranges; k_space := py_space;
+  k_strip := dec_strip; k_maxsplit := dec_kv_maxsplit; k_safe := dec_make_safe |}.
 
-Inductive exn := EKey | EValue | ETooLong | ENonMux | EImport | EType | EIndex | EAssert.
-Inductive res (A : Type) := Ok (a : A) | Raise (e : exn).
-Arguments Ok {A} a.
-Arguments Raise {A} e.
+Definition src_of (x : Z * (Z * list Z)) : src :=
+  let '(k, (n, s)) := x in if k =? 0 then SField (Z.to_nat n) else if k =? 1 then SStr s else SInt n.
 
-Definition bind {A B} (r : res A) (f : A -> res B) : res B :=
-  match r with Ok a => f a | Raise e => Raise e end.
+Definition assign_of (l : list (list Z * (Z * (Z * list Z)))) : list (str * src) :=
+  map (fun a => (fst a, src_of (snd a))) l.
 
-Fixpoint mapM {A B} (f : A -> res B) (l : list A) : res (list B) :=
-  match l with
-  | [] => Ok []
-  | a :: r => match f a with
-              | Raise e => Raise e
-              | Ok b => match mapM f r with Raise e => Raise e | Ok bs => Ok (b :: bs) end
-              end
-  end.
+Definition form_of (x : list Z * (list Z * (Z * (list (list Z * (Z * (Z * list Z))) * (Z * (Z * list Z)))))) : form :=
+  let '(d, (s, (n, (a, i)))) := x in
+  {| f_del := d; f_seps := s; f_n := n; f_assign := assign_of a; f_idx := src_of i |}.
 
-Definition len {A} (l : list A) : Z := Z.of_nat (List.length l).
+Definition forms0 : list form := map form_of illumina_forms.
 
-Fixpoint str_eqb (a b : str) : bool :=
-  match a, b with
-  | [], [] => true
-  | x :: a', y :: b' => (x =? y) && str_eqb a' b'
-  | _, _ => false
-  end.
+Definition threedec0 : threedec :=
+  let '((s, (n, (c, v))), a) := threedec_form in
+  {| t_sep := s; t_nsep := n; t_check := Z.to_nat c; t_value := v; t_assign := assign_of a |}.
 
-(* ---------------------------------------------------------------- python str primitives *)
-(* s.split(sep) for a one-character separator: never empty, keeps empty pieces *)
-Fixpoint split (sep : Z) (s : str) : list str :=
-  match s with
-  | [] => [[]]
-  | c :: r => if c =? sep then [] :: split sep r
-              else match split sep r with
-                   | h :: t => (c :: h) :: t
-                   | [] => [[c]]
-                   end
-  end.
+Definition ah_tag : str := fst ah_recipe.
+Definition ah_raw : str := fst (snd ah_recipe).
+Definition ah_corr : str := snd (snd ah_recipe).
 
-(* sep.join(parts) *)
-Fixpoint join (sep : Z) (parts : list str) : str :=
-  match parts with
-  | [] => []
-  | [p] => p
-  | p :: r => p ++ sep :: join sep r
-  end.
-
-(* s.split(sep, 1): None when the separator does not occur (the 2-name unpacking then fails) *)
-Fixpoint split1 (sep : Z) (s : str) : option (str * str) :=
-  match s with
-  | [] => None
-  | c :: r => if c =? sep then Some ([], r)
-              else match split1 sep r with Some (a, b) => Some (c :: a, b) | None => None end
-  end.
-
-Definition is_space (c : Z) : bool := existsb (Z.eqb c) py_space.
-Fixpoint lstrip (s : str) : str :=
-  match s with
-  | [] => []
-  | c :: r => if is_space c then lstrip r else s
-  end.
-Definition rstrip (s : str) : str := rev (lstrip (rev s)).
-Definition strip (s : str) : str := rstrip (lstrip s).
-
-Fixpoint starts_with (p s : str) : bool :=
-  match p, s with
-  | [], _ => true
-  | a :: p', b :: s' => (a =? b) && starts_with p' s'
-  | _ :: _, [] => false
-  end.
-
-Definition count (c : Z) (s : str) : Z := len (filter (Z.eqb c) s).
-
-(* l[i] with python index rules; None = IndexError *)
-Definition py_getitem (l : list Z) (i : Z) : option Z :=
-  let n := len l in
-  let j := if i <? 0 then i + n else i in
-  if (j <? 0) || (n <=? j) then None else nth_error l (Z.to_nat j).
-
-(* l.index(c); None = ValueError *)
-Fixpoint index_of (c : Z) (l : list Z) : option Z :=
-  match l with
-  | [] => None
-  | x :: r => if x =? c then Some 0 else match index_of c r with Some i => Some (i + 1) | None => None end
-  end.
+(* ---------------------------------------------------------------- python str primitives at the generated classes *)
+Definition is_space (c : Z) : bool := in_chars py_space c.
+Definition lstrip (s : str) : str := lstrip_g py_space s.
+Definition rstrip (s : str) : str := rstrip_g py_space s.
+Definition strip (s : str) : str := strip_g py_space s.
 
 (* ---------------------------------------------------------------- quality codec *)
-Definition clampZ (lo hi x : Z) : Z := Z.min (Z.max lo x) hi.
-
 (* string.ascii_letters[min(max(LO, ord(phred) - OFF), HI)] *)
 Definition phred_enc_char (c : Z) : option Z := py_getitem enc_table (clampZ enc_lo enc_hi (c - enc_off)).
 
@@ -114,83 +61,21 @@ Definition phred_dec (s : str) : res str :=
   mapM (fun c => match phred_dec_char c with Some e => Ok e | None => Raise EValue end) s.
 
 (* ---------------------------------------------------------------- fqSafe *)
-Definition fq_keep (c : Z) : bool := existsb (fun r => (fst r <=? c) && (c <=? snd r)) fqsafe_ranges.
-Definition fqSafe (s : str) : str := filter fq_keep s.
-
-(* ---------------------------------------------------------------- dictionaries (insertion ordered) *)
-Section Dict.
-  Context {V : Type}.
-  Fixpoint get (k : str) (d : list (str * V)) : option V :=
-    match d with
-    | [] => None
-    | (k', v) :: r => if str_eqb k k' then Some v else get k r
-    end.
-  Definition has (k : str) (d : list (str * V)) : bool := match get k d with Some _ => true | None => false end.
-  (* d[k] = v *)
-  Fixpoint dset (k : str) (v : V) (d : list (str * V)) : list (str * V) :=
-    match d with
-    | [] => [(k, v)]
-    | (k', v') :: r => if str_eqb k k' then (k', v) :: r else (k', v') :: dset k v r
-    end.
-  Definition ddel (k : str) (d : list (str * V)) : list (str * V) :=
-    filter (fun kv => negb (str_eqb k (fst kv))) d.
-  Definition update (d : list (str * V)) (kvs : list (str * V)) : list (str * V) :=
-    fold_left (fun d kv => dset (fst kv) (snd kv) d) kvs d.
-End Dict.
-
-Definition store := list (str * str).
-
-(* tag values as python holds them on the tagger side: str or int *)
-Inductive tval := TS (s : str) | TI (z : Z).
-Definition rstore := list (str * tval).
-
-(* str(int) *)
-Fixpoint dec_pos (fuel : nat) (n : Z) (acc : str) : str :=
-  match fuel with
-  | O => acc
-  | S f => let acc' := (48 + n mod 10) :: acc in if n <? 10 then acc' else dec_pos f (n / 10) acc'
-  end.
-Definition dec (z : Z) : str := if z <? 0 then 45 :: dec_pos 60 (- z) [] else dec_pos 60 z [].
-(* f"{value}" *)
-Definition fmt (v : tval) : str := match v with TS s => s | TI z => dec z end.
+Definition fq_keep (c : Z) : bool := in_ranges fqsafe_ranges c.
+Definition fqSafe (s : str) : str := fqSafe_g fqsafe_ranges s.
 
 (* ---------------------------------------------------------------- tag table *)
-Definition tagdef (k : str) : option (bool * bool) := get k tag_table.
+Definition tagdef (k : str) : option (bool * bool) := tagdef_g C0 k.
 Definition is_phred (k : str) : bool := match tagdef k with Some (p, _) => p | None => false end.
 
 (* ---------------------------------------------------------------- encoder: TaggedRecord.asFastq *)
-(* the (attribute, value) pairs that are written; KeyError for a tag without definition *)
-Fixpoint written (t : store) : res store :=
-  match t with
-  | [] => Ok []
-  | (k, v) :: r =>
-      match tagdef k with
-      | None => Raise EKey
-      | Some (_, dnw) => match written r with
-                         | Raise e => Raise e
-                         | Ok w => Ok (if dnw then w else (k, v) :: w)
-                         end
-      end
-  end.
-
-Definition item (kv : str * str) : str := fst kv ++ enc_kv_sep :: snd kv.
-Definition header_of (w : store) : str := join enc_item_sep (map item w).
-
-(* the header without the leading '@' = the query name the aligner stores; refused when too long *)
-Definition encode (t : store) : res str :=
-  match written t with
-  | Raise e => Raise e
-  | Ok w => let h := header_of w in if header_limit <? len h then Raise ETooLong else Ok h
-  end.
-
+Definition written (t : store) : res store := written_g C0 t.
+Definition item (kv : str * str) : str := item_g C0 kv.
+Definition header_of (w : store) : str := header_of_g C0 w.
+Definition encode (t : store) : res str := encode_g C0 t.
 Definition fastq_line (t : store) : res str := bind (encode t) (fun h => Ok (fastq_prefix ++ h)).
 
 (* ---------------------------------------------------------------- header parsers of the demultiplexer *)
-Definition c_colon : Z := 58.
-Definition c_space : Z := 32.
-Definition c_semi : Z := 59.
-Definition c_us : Z := 95.
-
 Definition k_Is := Eval compute in s2z "Is"%string.  Definition k_RN := Eval compute in s2z "RN"%string.
 Definition k_Fc := Eval compute in s2z "Fc"%string.  Definition k_La := Eval compute in s2z "La"%string.
 Definition k_Ti := Eval compute in s2z "Ti"%string.  Definition k_CX := Eval compute in s2z "CX"%string.
@@ -206,94 +91,27 @@ Definition k_MX := Eval compute in s2z "MX"%string.  Definition k_QT := Eval com
 Definition k_MI := Eval compute in s2z "MI"%string.  Definition k_QM := Eval compute in s2z "QM"%string.
 Definition k_SM := Eval compute in s2z "SM"%string.  Definition k_BK := Eval compute in s2z "BK"%string.
 Definition k_RG := Eval compute in s2z "RG"%string.
-Definition s_N := Eval compute in s2z "N"%string.    Definition s_UNK := Eval compute in s2z "UNK"%string.
-Definition s_0 := Eval compute in s2z "0"%string.    Definition s_1 := Eval compute in s2z "1"%string.
-Definition s_m1 := Eval compute in s2z "-1"%string.  Definition s_s := Eval compute in s2z "s"%string.
-Definition s_atIs := Eval compute in s2z "@Is"%string.
-Definition s_UMI := Eval compute in s2z "UMI"%string.
-Definition s_BULK := Eval compute in s2z "BULK"%string.
+Definition s_N := Eval compute in s2z "N"%string.    Definition s_BULK := Eval compute in s2z "BULK"%string.
 Definition s_NONE := Eval compute in s2z "NONE"%string.
 
-Definition illumina_keys10 : list str := [k_Is; k_RN; k_Fc; k_La; k_Ti; k_CX; k_CY; k_RP; k_Fi; k_CN].
-
-Definition sp2colon (s : str) : str := map (fun c => if c =? c_space then c_colon else c) s.
-
-(* header.replace('::', '') *)
-Fixpoint remove_dcolon (s : str) : str :=
-  match s with
-  | [] => []
-  | a :: t => match t with
-              | b :: r => if (a =? c_colon) && (b =? c_colon) then remove_dcolon r else a :: remove_dcolon t
-              | [] => [a]
-              end
-  end.
-
-(* the three accepted Illumina forms: 10 field values + the index sequence; the third form fills
-   readPairNumber / isFiltered / controlNumber with the python ints 1, 0, 0 *)
-Definition illumina_fields (h : str) : option (list tval * str) :=
-  let f1 := split c_colon (sp2colon h) in
-  if len f1 =? 11 then Some (map TS (firstn 10 f1), nth 10 f1 [])
-  else let f2 := split c_colon (sp2colon (remove_dcolon h)) in
-       if len f2 =? 10 then Some (map TS f2, s_N)
-       else let f3 := split c_colon h in
-            if len f3 =? 7 then Some (map TS f3 ++ [TI 1; TI 0; TI 0], s_N) else None.
-
-(* answers of the sequencing-index lookup (C03's subject) and of the int() test for the candidate index
-   sequences: None = no index parser given; table entry None = index not recognised *)
-Definition idx_oracle := option (list (str * option (str * str))).
-
-(* _parse_illumina_header: the store after the call and the exception, if any.  [inj] says how the
-   store holds a value: as is on the tagger side, printed (f-string) on the demultiplexer side *)
+(* _parse_illumina_header with the generated forms and index tags *)
 Definition parse_illumina {V} (inj : tval -> V) (h : str) (ix : idx_oracle) (d : list (str * V))
   : list (str * V) * option exn :=
-  match illumina_fields h with
-  | None => (d, Some EValue)
-  | Some (fs, idx) =>
-      let d1 := update d (combine illumina_keys10 (map inj fs)) in
-      match ix with
-      | None => (dset k_aa (inj (TS idx)) d1, None)
-      | Some tbl =>
-          match get idx tbl with
-          | Some (Some (ident, corrected)) =>
-              (update (dset k_aa (inj (TS idx)) d1) [(k_aA, inj (TS corrected)); (k_aI, inj (TS ident))], None)
-          | _ => (dset k_aa (inj (TS idx)) d1, Some ENonMux)
-          end
-      end
-  end.
+  parse_illumina_g forms0 index_raw_tag index_found_tags inj h ix d.
 
-Definition split_kv (sep : Z) (s : str) : option (str * str) :=
-  match split sep s with [k; v] => Some (k, v) | _ => None end.
-
-Fixpoint all_some {A} (l : list (option A)) : option (list A) :=
-  match l with
-  | [] => Some []
-  | None :: _ => None
-  | Some a :: r => match all_some r with Some x => Some (a :: x) | None => None end
-  end.
-
-(* parse_scmo_header: tags.update(dict(kv.split(':') for kv in header.strip()[1:].split(';'))) *)
+(* parse_scmo_header *)
 Definition parse_scmo (h : str) (d : store) : res store :=
-  match all_some (map (split_kv c_colon) (split c_semi (tl (strip h)))) with
-  | None => Raise EValue
-  | Some kvs => Ok (update d kvs)
-  end.
+  let '(st, (drop, (isep, kvsep))) := scmo_parse in
+  parse_scmo_g st py_space (Z.to_nat drop) isep kvsep h d.
 
-(* fromRawFastq *)
+(* fromRawFastq: the Illumina forms, else (any exception) the scmo form when the header starts like one,
+   else the 3-DEC form, which re-raises the pending exception when the header is not 3-DEC either *)
 Definition from_raw (h : str) (ix : idx_oracle) (d : store) : res store :=
   match parse_illumina fmt h ix d with
   | (d', None) => Ok d'
   | (d', Some e) =>
-      if starts_with s_atIs h then parse_scmo h d'
-      else if count c_us h =? 4 then
-        match split c_us h with
-        | [_; s; lane; tile; rp] =>
-            if str_eqb s s_s
-            then Ok (update d' [(k_Is, s_UNK); (k_RN, s_UNK); (k_Fc, s_UNK); (k_La, lane); (k_Ti, tile);
-                                (k_CX, s_m1); (k_CY, s_m1); (k_RP, rp); (k_Fi, s_0); (k_CN, s_0)])
-            else Raise EAssert
-        | _ => Raise EValue
-        end
-      else Raise e
+      if starts_with scmo_prefix h then parse_scmo h d'
+      else parse_3dec_g threedec0 h d' e
   end.
 
 (* TaggedRecord(tagDefinitions, rawRecord, library, reason) *)
@@ -303,111 +121,29 @@ Definition tagged_record (h : str) (ix : idx_oracle) (library reason : option st
     Ok (match reason with Some r => dset k_RR r d | None => d end)).
 
 (* ---------------------------------------------------------------- decoder: fromTaggedBamRecord *)
-(* the loop  for keyValue in ...: key, value = keyValue.split(':'); addTagByTag(key, value, isPhred=False)
-   returns the store so far and whether it ran to completion (false = ValueError at some item) *)
-Fixpoint add_items (items : list str) (d : rstore) : rstore * bool :=
-  match items with
-  | [] => (d, true)
-  | it :: r => match split_kv dec_kv_sep it with
-               | None => (d, false)
-               | Some (k, v) => add_items r (dset k (TS (fqSafe v)) d)
-               end
-  end.
-
-Definition decode (q : str) : res rstore :=
-  let s := strip q in
-  match add_items (split dec_item_sep s) [] with
-  | (d, true) => Ok d
-  | (d, false) =>
-      (* "Single Cell Discoveries" fallback *)
-      match split1 dec_item_sep s with
-      | None => Raise EValue
-      | Some (ih, attrs) =>
-          match parse_illumina (fun v => v) ih None d with
-          | (_, Some e) => Raise e
-          | (d', None) => match add_items (split dec_item_sep attrs) d' with
-                          | (d'', true) => Ok d''
-                          | (_, false) => Raise EValue
-                          end
-          end
-      end
-  end.
+Definition add_items (items : list str) (d : rstore) : rstore * bool := add_items_g C0 items d.
+Definition decode (q : str) : res rstore := decode_g C0 (fun ih d => parse_illumina (fun v => v) ih None d) q.
 
 (* ---------------------------------------------------------------- tagPysamRead *)
-Fixpoint hamming (a b : str) : Z :=
-  match a, b with
-  | x :: a', y :: b' =>
-      (if negb (x =? y) && negb (x =? 78) && negb (y =? 78) then 1 else 0) + hamming a' b'
-  | _, _ => 0
-  end.
-
-Record molacc := { m_id : str; m_q : str; m_qt_missing : bool; m_nonmux : bool; m_terr : bool }.
-
-(* the loop over moleculeIdentifiyingTags; stops at the NonMultiplexable.  Concatenating an int value is a
-   TypeError (m_terr); the decoder only ever stores ints under RP / Fi / CN, so this does not arise *)
-Fixpoint mol_loop (spec : list (str * (str * (bool * bool)))) (d : rstore) (a : molacc) : molacc :=
-  match spec with
-  | [] => a
-  | (tag, (qtag, (hasq, required))) :: r =>
-      let a1 :=
-        match get tag d with
-        | Some (TS v) =>
-            let mi := m_id a ++ v in
-            if hasq then
-              match get qtag d with
-              | Some (TS qv) => {| m_id := mi; m_q := m_q a ++ qv; m_qt_missing := m_qt_missing a;
-                                   m_nonmux := false; m_terr := m_terr a |}
-              | Some (TI _) => {| m_id := mi; m_q := m_q a; m_qt_missing := m_qt_missing a;
-                                  m_nonmux := false; m_terr := true |}
-              | None => {| m_id := mi; m_q := m_q a; m_qt_missing := m_qt_missing a || str_eqb qtag k_QT;
-                           m_nonmux := false; m_terr := m_terr a |}
-              end
-            else {| m_id := mi; m_q := m_q a ++ repeat 111 (List.length v);
-                    m_qt_missing := m_qt_missing a; m_nonmux := false; m_terr := m_terr a |}
-        | Some (TI _) => {| m_id := m_id a; m_q := m_q a; m_qt_missing := m_qt_missing a;
-                            m_nonmux := false; m_terr := true |}
-        | None => a
-        end in
-      if m_terr a1 then a1
-      else if required && negb (has tag d)
-      then {| m_id := m_id a1; m_q := m_q a1; m_qt_missing := m_qt_missing a1; m_nonmux := true; m_terr := false |}
-      else mol_loop r d a1
-  end.
-
 (* addTagByTag('SM', f'{LY}_{suffix}', isPhred=False) *)
-Definition sample_name (ly suffix : tval) : tval := TS (fqSafe (fmt ly ++ c_us :: fmt suffix)).
+Definition sample_name (ly suffix : tval) : tval := TS (fqSafe (fmt ly ++ 95 :: fmt suffix)).
+
+Definition mol0 : molacc := {| m_id := []; m_q := []; m_qt_missing := false; m_nonmux := false; m_terr := false |}.
 
 (* tags after the molecule / sample derivation, before they are written; the flag is QT_missing *)
 Definition derive (d : rstore) : res (rstore * bool) :=
-  let a := mol_loop mol_tags d {| m_id := []; m_q := []; m_qt_missing := false; m_nonmux := false; m_terr := false |} in
+  let a := mol_loop mol_pad mol_qt_tag mol_tags d mol0 in
   if m_terr a then Raise EType else
-  bind (if m_nonmux a then Ok (dset k_BK (TI 1) d)
+  bind (if m_nonmux a then Ok (dset bk_tag (TI 1) d)
         else
-          bind (match get k_aA d, get k_aa d with
-                | Some (TS ca), Some (TS ia) => Ok (dset k_ah (TI (hamming ia ca)) d)
+          bind (match get ah_corr d, get ah_raw d with
+                | Some (TS ca), Some (TS ia) => Ok (dset ah_tag (TI (hamming ia ca)) d)
                 | Some _, Some _ => Raise EType
                 | _, _ => Ok d
                 end) (fun r =>
-          let r := dset k_MI (TS (fqSafe (m_id a))) r in
-          Ok (if m_qt_missing a then r else dset k_QM (TS (fqSafe (m_q a))) r)))
-  (fun r1 =>
-  match get k_bi d with
-  | Some bi => match get k_LY d with
-               | None => Raise EKey
-               | Some ly => Ok (dset k_SM (sample_name ly bi) r1, m_qt_missing a)
-               end
-  | None =>
-      match get k_BI d with
-      | Some bI => match get k_LY d with
-                   | None => Raise EKey
-                   | Some ly => Ok (ddel k_BI (dset k_bi bI (dset k_SM (sample_name ly bI) r1)), m_qt_missing a)
-                   end
-      | None => match get k_LY d with
-                | Some ly => Ok (dset k_SM (sample_name ly (TS s_BULK)) r1, m_qt_missing a)
-                | None => Ok (r1, m_qt_missing a)
-                end
-      end
-  end).
+          let r := dset mi_tag (TS (fqSafe (m_id a))) r in
+          Ok (if m_qt_missing a then r else dset qm_tag (TS (fqSafe (m_q a))) r)))
+  (fun r1 => bind (sm_apply fqsafe_ranges sm_tag sm_recipes r1) (fun r2 => Ok (r2, m_qt_missing a))).
 
 (* value handed to read.set_tag: phred tags are converted back to the original characters *)
 Definition write_value (kv : str * tval) : res (str * tval) :=
@@ -418,16 +154,14 @@ Definition write_value (kv : str * tval) : res (str * tval) :=
        end
   else if len (fst kv) =? 2 then Ok kv else Raise EValue.   (* pysam refuses tags that are not 2 characters *)
 
-Definition tlen (v : tval) : option Z := match v with TS s => Some (len s) | TI _ => None end.
-
 Definition tag_read (d : rstore) : res rstore :=
   bind (derive d) (fun x =>
     let '(r2, qt_missing) := x in
     bind (mapM write_value r2) (fun out =>
-      if negb qt_missing && has k_QM out then
-        match get k_MI out with
+      if negb qt_missing && has qm_tag out then
+        match get mi_tag out with
         | None => Raise EKey
-        | Some mi => match get k_QM out with
+        | Some mi => match get qm_tag out with
                      | Some qm => match tlen qm, tlen mi with
                                   | Some a, Some b => if a =? b then Ok out else Raise EValue
                                   | _, _ => Raise EType
@@ -445,19 +179,17 @@ Definition illumina_name (d : rstore) : res str :=
   | Some vs => Ok (join name_sep (map fmt vs))
   end.
 
-Definition read_group (out : rstore) : str :=
-  let f k := match get k out with Some v => fmt v | None => s_NONE end in
-  f k_Fc ++ 46 :: f k_La ++ 46 :: f k_SM.
+Definition read_group (out : rstore) : str := eval_rg rg_recipe out.
 
 Definition digest_read (q : str) : res (str * rstore) :=
-  if starts_with s_UMI q then Raise EImport
+  if starts_with digest_old_prefix q then Raise EImport
   else bind (decode q) (fun d =>
        bind (illumina_name d) (fun name =>
        if 254 <? len name then Raise EValue   (* pysam: query length out of range *)
-       else bind (tag_read d) (fun out => Ok (name, dset k_RG (TS (read_group out)) out)))).
+       else bind (tag_read d) (fun out => Ok (name, dset rg_tag (TS (read_group out)) out)))).
 
-(* QueryNameFlagger.digest(reads): None entries are skipped, a read that already carries SM ends the call,
-   an exception ends the call and leaves the later reads untouched *)
+(* QueryNameFlagger.digest(reads): None entries are skipped, a read that already carries the done tag (SM) ends the
+   call, an exception ends the call and leaves the later reads untouched *)
 Inductive outcome := Untouched | Failed | Tagged (name : str) (tags : rstore).
 Fixpoint digest (reads : list (option (str * bool))) : list outcome * option exn :=
   match reads with
@@ -474,22 +206,58 @@ Fixpoint digest (reads : list (option (str * bool))) : list outcome * option exn
 (* demultiplexer -> tagger *)
 Definition chain (t : store) : res (str * rstore) := bind (encode t) digest_read.
 
-(* ---------------------------------------------------------------- preconditions / specification (booleans) *)
-Definition sepfree_char (c : Z) : bool :=
-  negb (c =? enc_item_sep) && negb (c =? enc_kv_sep) && negb (is_space c).
-Definition sepfree (s : str) : bool := forallb sepfree_char s.
-Definition safe (s : str) : bool := forallb fq_keep s.
+(* raw Illumina header -> TaggedRecord -> asFastq -> digest: the whole path of a read the strategy adds nothing to *)
+Definition chain_raw (h : str) (ix : idx_oracle) (library : option str) : res (str * rstore) :=
+  bind (tagged_record h ix library None) chain.
 
-Fixpoint nodup_keys (d : store) : bool :=
-  match d with
-  | [] => true
-  | (k, _) :: r => negb (has k r) && nodup_keys r
-  end.
+(* ---------------------------------------------------------------- preconditions / specification (booleans) *)
+Definition sepfree_char (c : Z) : bool := sepfree_char_g C0 c.
+Definition sepfree (s : str) : bool := sepfree_g C0 s.
+Definition safe (s : str) : bool := safe_g C0 s.
 
 (* a store the round-trip theorem speaks about *)
-Definition wf_store (t : store) : bool :=
-  nodup_keys t && forallb (fun kv => match tagdef (fst kv) with Some _ => true | None => false end) t
-  && forallb (fun kv => sepfree (snd kv)) t.
+Definition wf_store (t : store) : bool := wf_store_g C0 t.
+
+(* the generated tables are well formed (evaluated by run_C04 mode 3; proved in Proofs/C04.v) *)
+Definition index_tags : list str := index_raw_tag :: map fst index_found_tags.
+Definition wf_tables : bool :=
+  wf_codec C0 && forallb (wf_form fqsafe_ranges name_keys index_tags) forms0 && (header_limit <=? 254)
+  && negb (in_ranges fqsafe_ranges name_sep).
+
+(* ---- the coordinates clause, stated WITHOUT the tables: an Illumina read header is '@' + seven non-empty fields over
+   the header-safe alphabet joined by ':' (the coordinates), then nothing, or ' ' + three such fields joined by ':'
+   optionally followed by '::', or ' ' + three such fields + ':' + an index sequence free of ';' ':' and blanks.
+   [coords_of h] = the coordinates when h has one of these shapes *)
+Fixpoint take_until (c : Z) (s : str) : str * option str :=
+  match s with
+  | [] => ([], None)
+  | x :: r => if x =? c then ([], Some r) else let '(a, b) := take_until c r in (x :: a, b)
+  end.
+
+Definition field_ok (f : str) : bool := negb (len f =? 0) && safe f.
+
+Definition tail_ok (t : str) : bool :=
+  let ps := split 58 t in
+  match ps with
+  | [a; b; c] => field_ok a && field_ok b && field_ok c
+  | [a; b; c; i] => field_ok a && field_ok b && field_ok c && sepfree i
+  | [a; b; c; []; []] => field_ok a && field_ok b && field_ok c
+  | _ => false
+  end.
+
+Definition coords_of (h : str) : option str :=
+  match h with
+  | 64 :: r =>
+      let '(c, t) := take_until 32 r in
+      let fs := split 58 c in
+      if (len fs =? 7) && forallb field_ok fs && match t with None => true | Some t' => tail_ok t' end
+      then Some c else None
+  | _ => None
+  end.
+
+(* specification: the query name after digest is the coordinates of the original header *)
+Definition spec_coords (h name : str) : bool :=
+  match coords_of h with Some c => str_eqb name c | None => true end.
 
 (* ---------------------------------------------------------------- I/O glue *)
 Definition exn_code (e : exn) : Z :=
@@ -512,7 +280,20 @@ Definition getOracle (v : Val) : idx_oracle :=
   | _ => None
   end.
 
-(* mode 0: [op; args...]   mode 1: precondition wf_store of a store   *)
+(* which form accepts a header: [index in the table; pieces] or [] *)
+Fixpoint form_index (forms : list form) (h : str) (i : Z) : Val :=
+  match forms with
+  | [] => VL []
+  | F :: r => match form_pieces F h with
+              | Some p => VL [VZ i; VL (map ofStr p)]
+              | None => form_index r h (i + 1)
+              end
+  end.
+
+(* mode 0: [op; args...]
+   mode 1: precondition wf_store of a store
+   mode 2: specb of the coordinates clause on [original header; query name the implementation produced]
+   mode 3: precondition of the coordinates clause (the header has one of the Illumina shapes); input [] = wf_tables *)
 Definition run_C04 (mode : Z) (v : Val) : Val :=
   match mode with
   | 0 =>
@@ -538,7 +319,15 @@ Definition run_C04 (mode : Z) (v : Val) : Val :=
                               | Tagged n t => VL [VZ 2; ofStr n; ofRstore t]
                               end) o);
             match e with Some x => VL [VZ (exn_code x)] | None => VL [] end]
+      else if op =? 10 then form_index forms0 (getZs a) 0
+      else if op =? 11 then ofRes (fun x => VL [ofStr (fst x); ofRstore (snd x)])
+                                  (chain_raw (getZs a) (getOracle (nthV 2 v)) (getOptStr (nthV 3 v)))
       else bad
   | 1 => ofB (wf_store (getStore v))
+  | 2 => ofB (spec_coords (getZs (nthV 0 v)) (getZs (nthV 1 v)))
+  | 3 => match getL v with
+         | [] => ofB wf_tables
+         | _ => ofB (match coords_of (getZs (nthV 0 v)) with Some _ => true | None => false end)
+         end
   | _ => bad
   end.
